@@ -251,6 +251,10 @@ def run_job_(job, scratch_root, keep=False):
     lib_fail = [f for f in failed if f["property"].startswith("__CPROVER_contracts_")]
     failed = [f for f in failed if not f["property"].startswith("__CPROVER_contracts_")]
     res["obligations"] = n
+    res["sample_obligations"] = [{"id": p.get("property"), "what": p.get("description", "")[:160], "status": p.get("status"),
+                                  "at": "%s:%s" % (os.path.basename(p.get("sourceLocation", {}).get("file", "")), p.get("sourceLocation", {}).get("line", ""))}
+                                 for p in props if ("postcondition" in p.get("property", "") or "assertion" in p.get("property", "") or "loop_invariant" in p.get("property", ""))
+                                 and not p.get("description", "").startswith("reach")][:4]
     res["classes"] = classes
     res["failed"] = failed
     res["reach"] = reach_seen
